@@ -17,7 +17,9 @@ from ..worlds import DictWorld, _hash_context
 
 PROP = 'C09'
 
-USERS = {'alice': ('pw', ()), 'bob': ('pw2', ()), 'root': ('rootpw', ('admin',))}
+USERS = {'alice': ('pw', ()), 'bob': ('pw2', ()), 'root': ('rootpw', ('admin',)),
+         # a different account whose name differs from alice's only in case
+         'Alice': ('pw3', ())}
 
 
 def b64(x: bytes) -> bytes:
@@ -75,6 +77,10 @@ def build_alphabet(proto):
          b'bad', b'bob'),
         ('unknown-as-alice', plain(b'alice', b'mallory', b'pw'), b'mallory',
          b'pw', b'alice'),
+        ('alice-as-Alice', plain(b'Alice', b'alice', b'pw'), b'alice', b'pw',
+         b'Alice'),
+        ('ALICE-alices-pw', plain(b'', b'ALICE', b'pw'), b'ALICE', b'pw',
+         b'ALICE'),
         ('badb64', b'!!!notbase64', None, None, None),
         ('cancel', b'*', None, None, None),
         ('empty', b'', None, None, None),
